@@ -147,6 +147,17 @@ CLAIMED = {
         "abstract evaluation into run-length lists; positional (tuple-slot) provenance and statement-order analysis over the ast",
         "other",
     ),
+    "C05": (
+        "Decides the coupling formulas and wiring for all inputs: meat energy = sum over the five size classes of culled head x "
+        "kcal/kg x kg/head of the SAME class /1e9 x (1 - distribution waste), month m to entry m, running total of the same "
+        "series; the three species->size-class chains agree and the arrays are bound by position; milk energy = this round's "
+        "milk-bearing herd x yield/12 x kcal/kg x (1-dist)(1-retail); round 3 charges its own herd's feed_used, changed only by "
+        "the never-lowering bump; round 1 runs its herd on zero feed and charges that herd's asserted-zero feed. The herd "
+        "trajectory and grass use are C06/C07; total preservation under re-timing is C18.",
+        "The slaughter/population arrays are the herd simulation's (C06). " + TRUST,
+        "symbolic evaluation of the yield/energy formulas; sibling-chain cross-check; positional provenance over the ast",
+        "other",
+    ),
 }
 
 NOT_APPLICABLE = {
